@@ -15,7 +15,11 @@ What runs on every `./check C20`:
              to kinds, the spec taken from the *generated table*; the model predicts the attribute set and kinds
              of the restored object (this validates the translator against the running code);
    * `jg`  — `JSONGrammar` state round trip;  `h5` — `HDF5Cache` re-attachment (the original stores an entry
-             between `dumps` and `loads`, the copy stores one after: both must see the file's content).
+             between `dumps` and `loads`, the copy stores one after: both must see the file's content);
+   * `jgl` — the *life* of a `JSONGrammar` (c20_life.py): element edits, edits of required names / defaults,
+             reads of `schema`, validations, round trips in any order, pickled at the end, then a further life
+             on the original and on the copy;  `h5l` — the life of an `HDF5Cache`: tolerance / name changed
+             through the public setters before and after pickling, writes, exact and tolerance-based look-ups.
 3. **Differential oracle** (c20_diff / c20_diff2): every class of the discipline and MDA factories that can be
    instantiated without external tools x grammar types x cache types x moments x serializers, scenarios,
    problems, functions, design spaces, grammars, caches, DOE libraries, statuses, statistics, directory creators.
@@ -39,6 +43,7 @@ from fractions import Fraction
 from pathlib import Path
 from typing import Any
 
+from harness import c20_life as LIFE
 from harness import common
 from harness import translate_c20 as TR
 from harness.common import Result
@@ -693,25 +698,93 @@ def instance_oracle(case, impl: str) -> tuple[bool, str, str]:
     return impl == want, "HDF5Cache:file-cache-detached", f"HDF5Cache re-attachment: expected {want}, observed {impl}"
 
 
+def instance_line(case) -> str:
+    return {"jg": jg_line, "h5": h5_line, "jgl": LIFE.jgl_line, "h5l": LIFE.h5l_line}[case["kind"]](case)
+
+
+def instance_run(case, tmp: Path) -> tuple[str, list[tuple[str, str]]]:
+    """Run one jg/h5/jgl/h5l case on the real code: (canonical answer, oracle failures [(key, what)])."""
+    kind = case["kind"]
+    try:
+        if kind == "jgl":
+            impl, parts = LIFE.jgl_impl(case)
+            return impl, LIFE.jgl_oracle(case, parts)
+        if kind == "h5l":
+            impl = LIFE.h5l_impl(case, tmp)
+        else:
+            impl = jg_impl(case) if kind == "jg" else h5_impl(case, tmp)
+    except Exception as e:  # noqa: BLE001
+        impl = "E:" + type(e).__name__ + ":" + str(e)[:80]
+        if kind == "jgl":
+            return impl, [("JSONGrammar:life-raises", f"a public operation of the life raises {impl}")]
+    if kind == "h5l":
+        want = LIFE.h5l_expected(case)
+        if impl == want:
+            return impl, []
+        key = "HDF5Cache:life-settings-differ"
+        a, b = impl.split(" | "), want.split(" | ")
+        if len(a) == 2 and len(b) == 2 and a[1].split(" after=")[0] == b[1].split(" after=")[0]:
+            ia, ib = a[0].split(";"), b[0].split(";")
+            diff = [k for k in range(min(len(ia), len(ib))) if ia[k] != ib[k]]
+            if not any(ib[k].startswith("c=") and ia[k].split(",sees=")[0] != ib[k].split(",sees=")[0] for k in diff):
+                key = "HDF5Cache:life-behaviour-differs"
+        return impl, [(key, f"HDF5Cache life: the property demands {want}, observed {impl}")]
+    ok, key, what = instance_oracle(case, impl)
+    return impl, ([] if ok else [(key, what)])
+
+
+def shrink_life(case, key: str, tmp: Path):
+    """Drop operations of a failing life while the same oracle key still fails."""
+    cur = json.loads(json.dumps(case))
+    for fld in ("post", "ops", "bat"):
+        i = 0
+        while fld in cur and i < len(cur[fld]):
+            if cur[fld][i] in (["P"], ["L"]) and cur["kind"] == "h5l":
+                i += 1
+                continue
+            cand = json.loads(json.dumps(cur))
+            del cand[fld][i]
+            try:
+                _, bad = instance_run(cand, tmp)
+            except Exception:  # noqa: BLE001
+                bad = []
+            if any(k == key for k, _ in bad):
+                cur = cand
+            else:
+                i += 1
+    return cur
+
+
 def check_instances(res: Result, rng: common.Rng, n: int, tmp: Path) -> None:
     jg = [gen_jg_case(rng) for _ in range(n)]
     h5 = [gen_h5_case(rng) for _ in range(max(3, n // 3))]
-    check_instance_cases(res, jg + h5, tmp)
+    jgl = [LIFE.gen_jgl_case(rng) for _ in range(3 * n)]
+    h5l = [LIFE.gen_h5l_case(rng) for _ in range(n)]
+    check_instance_cases(res, jg + h5 + jgl + h5l, tmp)
 
 
 def check_instance_cases(res: Result, cases: list[dict[str, Any]], tmp: Path) -> None:
-    lines = [jg_line(c) if c["kind"] == "jg" else h5_line(c) for c in cases]
+    lines = [instance_line(c) for c in cases]
     model = common.run_lean_driver(PID, lines)
     for case, line, m in zip(cases, lines, model):
         res.evaluations += 1
-        try:
-            impl = jg_impl(case) if case["kind"] == "jg" else h5_impl(case, tmp)
-        except Exception as e:  # noqa: BLE001
-            impl = "E:" + type(e).__name__ + ":" + str(e)[:80]
+        impl, bad = instance_run(case, tmp)
         res.count("instance:" + case["kind"])
-        ok, key, what = instance_oracle(case, impl)
-        if not ok:
-            res.violate("oracle", key, what, {"case": case, "line": line})
+        if case["kind"] == "jgl":
+            res.count(f"jgl:ops={min(len(case['ops']), 12)}")
+            for f in case.get("flags", []) or ["no-edit-after-schema-built"]:
+                res.count("jgl:" + f)
+        elif case["kind"] == "h5l":
+            for f in LIFE.h5l_flags(case) or ["settings-as-constructed"]:
+                res.count("h5l:" + f)
+        ok = not bad
+        seen = {v.key for v in res.violations}
+        for key, what in bad:
+            small = case
+            if case["kind"] in ("jgl", "h5l") and key not in seen:
+                small = shrink_life(case, key, tmp)
+                what = next((w for k, w in instance_run(small, tmp)[1] if k == key), what)
+            res.violate("oracle", key, what, {"case": {k: v for k, v in small.items() if k != "flags"}, "line": instance_line(small)})
         if impl == m:
             res.traces_validated += 1
             res.nontrivial((case["kind"], line))
@@ -755,6 +828,19 @@ def core_cases() -> list[dict[str, Any]]:
     cases.append({"kind": "discipline", "recipe": "Sellar1", "cache": "none", "moment": "linearized", "seed": 1, "serializer": "gemseo"})
     for g in ("SimpleGrammar", "PydanticGrammar"):
         cases.append({"kind": "discipline", "recipe": "MDOChain", "grammar": g, "moment": "executed", "seed": 1})
+    # settings changed after creation / after use (every cache type that can be pickled, every grammar type)
+    for c in ("SimpleCache", "HDF5Cache"):
+        for m in ("fresh", "executed", "linearized"):
+            cases.append({"kind": "discipline", "recipe": "Sellar1", "cache": c, "moment": m, "seed": 3,
+                          "edits": [["cache-tol", "1/64"], ["cache-name", "renamed"], ["use", 0], ["cache-tol", "1/1024"]]})
+    for g in ("JSONGrammar", "SimpleGrammar", "PydanticGrammar"):
+        for m in ("fresh", "executed"):
+            cases.append({"kind": "discipline", "recipe": "Sellar1", "grammar": g, "moment": m, "seed": 4, "blind": True,
+                          "edits": [["use", 0], ["in-optional", 0], ["in-default", 1], ["out-optional", 0]]})
+            cases.append({"kind": "discipline", "recipe": "MDOChain", "grammar": g, "moment": m, "seed": 4, "blind": m == "fresh",
+                          "edits": [["in-optional", 1], ["use", 0], ["in-required", 0], ["in-optional", 0]]})
+    for c in ("SimpleCache", "HDF5Cache"):
+        cases.append({"kind": "cache", "cache": c, "seed": 1, "n_entries": 2, "edits": [["tol", "1/64"], ["name", "renamed"]]})
     for sc in ("MDO", "DOE"):
         for m in ("fresh", "executed"):
             cases.append({"kind": "scenario", "scenario": sc, "formulation": "MDF", "moment": m, "algo": "SLSQP" if sc == "MDO" else "PYDOE_LHS"})
@@ -773,11 +859,35 @@ def core_cases() -> list[dict[str, Any]]:
     return cases
 
 
+def gen_edits(rng: common.Rng, cache: str) -> list[list[Any]]:
+    """Settings changed through the public API between the construction (or the last use) and the pickling."""
+    kinds = ["in-optional", "in-optional", "in-default", "in-default", "in-required", "out-optional", "use", "use"]
+    if cache != "none":
+        kinds += ["cache-tol"] * 4 + ["cache-name"] * 2
+    edits: list[list[Any]] = []
+    for _ in range(rng.randint(1, 4)):
+        k = rng.pick(kinds)
+        if k == "cache-tol":
+            edits.append([k, rng.pick(["1/64", "1/1024", "1/16", "0"])])
+        elif k == "cache-name":
+            edits.append([k, rng.pick(["renamed", "c2"])])
+        else:
+            edits.append([k, rng.randint(0, 5)])
+    return edits
+
+
 def gen_case(rng: common.Rng) -> dict[str, Any]:
+    c = _gen_case(rng)
+    if rng.chance(0.5) and c["kind"] in ("discipline", "grammar", "cache", "problem", "scenario", "design_space"):
+        c["blind"] = True  # serialized before the harness observes anything (see c20_diff._view_and_serialize)
+    return c
+
+
+def _gen_case(rng: common.Rng) -> dict[str, Any]:
     from harness import c20_catalog as CAT
 
     recipes, _ = CAT.discipline_recipes()
-    kind = rng.pick(["discipline"] * 10 + ["grammar"] * 3 + ["problem"] * 2 + ["scenario", "function", "design_space", "cache", "serializable", "data"])
+    kind = rng.pick(["discipline"] * 10 + ["grammar"] * 3 + ["problem"] * 2 + ["scenario", "function", "design_space", "cache", "cache", "serializable", "data"])
     seed = rng.randint(0, 10**6)
     if kind == "discipline":
         c = {
@@ -793,6 +903,8 @@ def gen_case(rng: common.Rng) -> dict[str, Any]:
         }
         if rng.chance(0.1):
             c["observer"] = rng.pick(["plain", "resource"])
+        if rng.chance(0.5):
+            c["edits"] = gen_edits(rng, c["cache"])
         return c
     ser = rng.pick(["pickle", "gemseo"])
     if kind == "grammar":
@@ -824,7 +936,10 @@ def gen_case(rng: common.Rng) -> dict[str, Any]:
     if kind == "design_space":
         return {"kind": kind, "moment": rng.pick(["fresh", "used"]), "seed": seed, "serializer": ser}
     if kind == "cache":
-        return {"kind": kind, "cache": rng.pick(["SimpleCache", "HDF5Cache", "MemoryFullCache"]), "seed": seed, "serializer": ser}
+        c = {"kind": kind, "cache": rng.pick(["SimpleCache", "HDF5Cache", "HDF5Cache", "MemoryFullCache"]), "seed": seed, "serializer": ser}
+        if rng.chance(0.7):
+            c["edits"] = [rng.pick([["tol", rng.pick(["1/64", "1/8", "0", "1/1024"])], ["name", rng.pick(["renamed", "c2"])]]) for _ in range(rng.randint(1, 3))]
+        return c
     if kind == "data":
         return {"kind": kind, "seed": seed, "serializer": ser}
     what = rng.pick(["ExecutionStatus", "ExecutionStatistics", "DirectoryCreator", "DOELibrary"])
@@ -861,6 +976,8 @@ _SIMPLER = [
     ("n_post", 1),
     ("status", "DONE"),
     ("n_entries", 0),
+    ("edits", None),
+    ("blind", None),
 ]
 
 
@@ -902,6 +1019,21 @@ def shrink_case(case: dict[str, Any], fkind: str, tmp: Path) -> dict[str, Any]:
             continue
         if o.status == "ok" and any(k == fkind for k, _ in o.failures):
             cur = cand
+    i = 0
+    while cur.get("edits") and i < len(cur["edits"]):  # drop the edits the failure does not need
+        cand = dict(cur)
+        cand["edits"] = cur["edits"][:i] + cur["edits"][i + 1 :]
+        if not cand["edits"]:
+            cand.pop("edits")
+        try:
+            o = run_case(cand, tmp)
+        except Exception:  # noqa: BLE001
+            i += 1
+            continue
+        if o.status == "ok" and any(k == fkind for k, _ in o.failures):
+            cur = cand
+        else:
+            i += 1
     return cur
 
 
@@ -928,6 +1060,18 @@ def process_outcome(res: Result, case: dict[str, Any], out, tmp: Path, shrink: b
     for dim in ("grammar", "cache", "moment", "serializer"):
         if dim in case:
             res.count(f"{dim}={case[dim]}")
+    if "blind" in out.info:
+        res.count(f"{case['kind']}:" + ("serialized-before-any-observation" if out.info["blind"] else "viewed-then-serialized"))
+    if case["kind"] in ("discipline", "cache", "grammar"):
+        done = out.info.get("edits_done")
+        if done is not None:
+            res.count(f"{case['kind']}:life=" + ("edited-after-creation" if done else "as-constructed"))
+            for k in sorted(set(done)):
+                res.count(f"{case['kind']}:edit={k}")
+        if out.info.get("near_inputs"):
+            res.count("discipline:case-with-inputs-near-a-cached-input")
+            if out.info.get("near_hits"):
+                res.count("discipline:case-with-tolerance-based-cache-hit")
     res.nontrivial((case["kind"], subject_of(case, out), case.get("grammar"), case.get("cache"), case.get("moment"), case.get("serializer"), case.get("seed")))
     for fkind, what in out.failures:
         # shrink only the first failure of a class (a broken base class fails for every subclass and moment)
@@ -1031,7 +1175,7 @@ def run(ctx) -> Result:
             fname = c.pop("_file")
             if c.get("kind") == "probe":
                 check_probe_cases(res, [c], True)
-            elif c.get("kind") in ("jg", "h5"):
+            elif c.get("kind") in ("jg", "h5", "jgl", "h5l"):
                 check_instance_cases(res, [c], tmp)
             else:
                 process_outcome(res, c, run_case(c, tmp), tmp, shrink=False)
@@ -1164,18 +1308,15 @@ def replay(path: str) -> int:
             for k, w in bad:
                 print("ORACLE FAILS:", k, w)
             return 1 if bad else 0
-        if case.get("kind") in ("jg", "h5"):
-            line = jg_line(case) if case["kind"] == "jg" else h5_line(case)
-            try:
-                impl = jg_impl(case) if case["kind"] == "jg" else h5_impl(case, tmp)
-            except Exception as e:  # noqa: BLE001
-                impl = "E:" + type(e).__name__ + ":" + str(e)[:80]
+        if case.get("kind") in ("jg", "h5", "jgl", "h5l"):
+            line = instance_line(case)
+            impl, bad = instance_run(case, tmp)
+            print("line          :", line)
             print("implementation:", impl)
             print("model         :", common.run_lean_driver(PID, [line])[0])
-            ok, key, what = instance_oracle(case, impl)
-            if not ok:
+            for key, what in bad:
                 print("ORACLE FAILS:", key, "|", what)
-            return 0 if ok else 1
+            return 1 if bad else 0
         out = run_case(case, tmp)
         print("status:", out.status, out.detail)
         for k, w in out.failures:
